@@ -17,21 +17,22 @@ import (
 // Fixed identity answers of the recording OS. Every path and every environment
 // variable name the scripts use carries the marker.
 const (
-	mark      = "VERIFMARK"
-	vPid      = 424242
-	vUid      = 777
-	vHost     = "verif-host"
-	vCwd      = "/VERIFMARK_cwd"
-	vTmp      = "/VERIFMARK_tmp"
-	vHome     = "/VERIFMARK_home"
-	vCache    = "/VERIFMARK_home/cache"
-	vConfig   = "/VERIFMARK_home/config"
-	vEnvName  = "VERIFMARK_VAR"
-	vEnvValue = "virtual-env-value"
-	vStdin    = "stdin-VIRTUAL-1\nstdin-VIRTUAL-2\n"
-	vUser     = "VERIFMARK_user"
-	vGroup    = "VERIFMARK_group"
-	vGid      = "888"
+	mark       = "VERIFMARK"
+	markPrefix = "VERIFMAR" // what the real-side scans look for (see retag)
+	vPid       = 424242
+	vUid       = 777
+	vHost      = "verif-host"
+	vCwd       = "/VERIFMARK_cwd"
+	vTmp       = "/VERIFMARK_tmp"
+	vHome      = "/VERIFMARK_home"
+	vCache     = "/VERIFMARK_home/cache"
+	vConfig    = "/VERIFMARK_home/config"
+	vEnvName   = "VERIFMARK_VAR"
+	vEnvValue  = "virtual-env-value"
+	vStdin     = "stdin-VIRTUAL-1\nstdin-VIRTUAL-2\n"
+	vUser      = "VERIFMARK_user"
+	vGroup     = "VERIFMARK_group"
+	vGid       = "888"
 )
 
 // initial tree of the in-memory filesystem (directories end in "/").
@@ -478,6 +479,7 @@ func (f *memFile) Seek(offset int64, whence int) (int64, error) {
 // recOS implements ros.OS method by method (no embedding, so the compiler proves the list is complete):
 // log the call with its arguments, then let risor's VirtualOS (mounted on memFS) answer.
 type recOS struct {
+	tag    byte
 	in     *inst
 	v      *ros.VirtualOS
 	fs     memFS
@@ -488,25 +490,36 @@ type recOS struct {
 
 var _ ros.OS = (*recOS)(nil)
 
-func newRecOS(name string) *recOS {
+// retag rewrites the marker for one case: "/" of the real filesystem is shared by the parallel workers, so the
+// cases of worker i (= case index mod 16) use the marker VERIFMAR<'A'+i> (same length; shard 10 has VERIFMARK
+// itself). A real entry carrying a worker's own tag is that worker's doing.
+func retag(s string, tag byte) string {
+	if tag == 'K' {
+		return s
+	}
+	return strings.ReplaceAll(s, mark, markPrefix+string(tag))
+}
+
+func newRecOS(name string, tag byte) *recOS {
+	t := func(s string) string { return retag(s, tag) }
 	in := &inst{name: name, nodes: map[string]*node{}}
 	for p, c := range initTree {
 		if strings.HasSuffix(p, "/") {
-			in.nodes[norm(p)] = &node{dir: true, mode: 0o755 | fs.ModeDir}
+			in.nodes[norm(t(p))] = &node{dir: true, mode: 0o755 | fs.ModeDir}
 		} else {
-			in.nodes[p] = &node{data: []byte(c), mode: 0o644}
+			in.nodes[t(p)] = &node{data: []byte(c), mode: 0o644}
 		}
 	}
-	o := &recOS{in: in, fs: memFS{in}}
+	o := &recOS{in: in, fs: memFS{in}, tag: tag}
 	o.stdin = &memFile{in: in, label: "<stdin>", n: &node{data: []byte(vStdin), mode: 0o444}, readable: true}
 	o.stdout = &memFile{in: in, label: "<stdout>", n: &node{mode: 0o222}, writable: true, app: true}
 	o.stderr = &memFile{in: in, label: "<stderr>", n: &node{mode: 0o222}, writable: true, app: true}
 	o.v = ros.NewVirtualOS(context.Background(),
 		ros.WithMounts(map[string]*ros.Mount{"/": {Source: o.fs, Target: "/", Type: "mem"}}),
-		ros.WithCwd(vCwd), ros.WithTmp(vTmp), ros.WithPid(vPid), ros.WithUid(vUid), ros.WithHostname(vHost),
-		ros.WithEnvironment(map[string]string{vEnvName: vEnvValue}),
-		ros.WithArgs([]string{"VERIFMARK_arg0", "VERIFMARK_arg1"}),
-		ros.WithUserCacheDir(vCache), ros.WithUserConfigDir(vConfig), ros.WithUserHomeDir(vHome),
+		ros.WithCwd(t(vCwd)), ros.WithTmp(t(vTmp)), ros.WithPid(vPid), ros.WithUid(vUid), ros.WithHostname(vHost),
+		ros.WithEnvironment(map[string]string{t(vEnvName): vEnvValue}),
+		ros.WithArgs([]string{t("VERIFMARK_arg0"), t("VERIFMARK_arg1")}),
+		ros.WithUserCacheDir(t(vCache)), ros.WithUserConfigDir(t(vConfig)), ros.WithUserHomeDir(t(vHome)),
 		ros.WithStdin(o.stdin), ros.WithStdout(o.stdout), ros.WithStderr(o.stderr),
 		ros.WithExitHandler(func(code int) {
 			in.mu.Lock()
@@ -622,45 +635,45 @@ func (o *recOS) PathListSeparator() rune {
 
 // VirtualUser / VirtualGroup have unexported fields and no constructor, so a host outside package os cannot
 // configure users on a VirtualOS; the recording OS answers the user and group lookups itself.
-type vUserT struct{}
+type vUserT struct{ tag byte }
 
-func (vUserT) Uid() string      { return fmt.Sprint(vUid) }
-func (vUserT) Gid() string      { return vGid }
-func (vUserT) Username() string { return vUser }
-func (vUserT) Name() string     { return "Verif User" }
-func (vUserT) HomeDir() string  { return vHome }
+func (vUserT) Uid() string        { return fmt.Sprint(vUid) }
+func (vUserT) Gid() string        { return vGid }
+func (u vUserT) Username() string { return retag(vUser, u.tag) }
+func (vUserT) Name() string       { return "Verif User" }
+func (u vUserT) HomeDir() string  { return retag(vHome, u.tag) }
 
-type vGroupT struct{}
+type vGroupT struct{ tag byte }
 
-func (vGroupT) Gid() string  { return vGid }
-func (vGroupT) Name() string { return vGroup }
+func (vGroupT) Gid() string    { return vGid }
+func (g vGroupT) Name() string { return retag(vGroup, g.tag) }
 
-func (o *recOS) CurrentUser() (ros.User, error) { o.in.add("CurrentUser()"); return vUserT{}, nil }
+func (o *recOS) CurrentUser() (ros.User, error) { o.in.add("CurrentUser()"); return vUserT{o.tag}, nil }
 func (o *recOS) LookupUser(name string) (ros.User, error) {
 	o.in.add("LookupUser(%q)", name)
-	if name == vUser {
-		return vUserT{}, nil
+	if name == retag(vUser, o.tag) {
+		return vUserT{o.tag}, nil
 	}
 	return nil, fmt.Errorf("user %s not found", name)
 }
 func (o *recOS) LookupUid(uid string) (ros.User, error) {
 	o.in.add("LookupUid(%q)", uid)
 	if uid == fmt.Sprint(vUid) {
-		return vUserT{}, nil
+		return vUserT{o.tag}, nil
 	}
 	return nil, fmt.Errorf("user with uid %s not found", uid)
 }
 func (o *recOS) LookupGroup(name string) (ros.Group, error) {
 	o.in.add("LookupGroup(%q)", name)
-	if name == vGroup {
-		return vGroupT{}, nil
+	if name == retag(vGroup, o.tag) {
+		return vGroupT{o.tag}, nil
 	}
 	return nil, fmt.Errorf("group %s not found", name)
 }
 func (o *recOS) LookupGid(gid string) (ros.Group, error) {
 	o.in.add("LookupGid(%q)", gid)
 	if gid == vGid {
-		return vGroupT{}, nil
+		return vGroupT{o.tag}, nil
 	}
 	return nil, fmt.Errorf("group with gid %s not found", gid)
 }
